@@ -690,6 +690,18 @@ class DialectKWArgs:
         if not kwargs:
             return
 
+        existing = self.__dict__.get("dialect_options")
+        if existing is not None:
+            # a generative copy shares the memoized registry of the
+            # statement it was copied from; never write into that one
+            fresh = util.PopulateDict(self._kw_reg_for_dialect_cls)
+            for name, argdict in existing.items():
+                d = _DialectArgDict()
+                d._non_defaults.update(argdict._non_defaults)
+                d._defaults.update(argdict._defaults)
+                fresh[name] = d
+            self.__dict__["dialect_options"] = fresh
+
         for k in kwargs:
             m = re.match("^(.+?)_(.+)$", k)
             if not m:
